@@ -363,6 +363,33 @@ execute_sort_plan(struct sortplan *sp)
 	return 0;
 }
 
+/* Ensures that the whole stream is sorted after the sort regions have been
+ * processed: events out of order outside a region, a region that is never
+ * closed or events of a region later than its end marker cannot be sorted. */
+static int
+check_sorted(struct stream *stream)
+{
+	uint8_t *p = stream->buf + sizeof(struct ovni_stream_header);
+	uint8_t *end = stream->buf + stream->size;
+	uint64_t last_clock = 0;
+
+	while (p < end) {
+		struct ovni_ev *ev = (struct ovni_ev *) p;
+		uint64_t clock = ovni_ev_get_clock(ev);
+
+		if (clock < last_clock) {
+			err("backwards jump in time %"PRIu64" -> %"PRIu64" for stream %s",
+					last_clock, clock, stream->relpath);
+			return -1;
+		}
+
+		last_clock = clock;
+		p += ovni_ev_size(ev);
+	}
+
+	return 0;
+}
+
 /* Sort the events in the stream chronologically using a ring */
 static int
 stream_winsort(struct stream *stream, struct ring *r)
@@ -432,11 +459,20 @@ stream_winsort(struct stream *stream, struct ring *r)
 		warn("stream %s contains %zd empty sort regions",
 				stream->relpath, empty_regions);
 
+	if (st != 'S')
+		warn("stream %s ends inside a sort region", stream->relpath);
+
 	if (updated && fdatasync(fd) < 0)
 		die("fdatasync %s failed:", fn);
 
 	if (close(fd) < 0)
 		die("close %s failed:", fn);
+
+	/* Only claim success if the stream is sorted now */
+	if (check_sorted(stream) != 0) {
+		err("stream %s cannot be sorted", stream->relpath);
+		return -1;
+	}
 
 	return 0;
 }
